@@ -121,3 +121,42 @@ func ZZ_C08_HookOverride() {
 	verifAssert(len(io.sent) == 1 && io.sent[0].addr == "orig:443" && io.sent[0].sid == 9, "replies are reported from the original destination, tagged with the session")
 	verifCover("hooked")
 }
+
+// A fragmented datagram whose fragments name different destinations (a peer is
+// free to do that): whichever destination the reassembled datagram is sent to,
+// it is one the policy allows - also when only the first-arriving fragment's
+// destination is allowed.
+//
+//verif:harness kind=api unwind=600 preempt=0 bound=2-fragments,3-destinations,both-arrival-orders,arbitrary-policy
+func ZZ_C08_FragmentsNamingDifferentDestinations() {
+	io := &zzUDPIO{allow: map[string]bool{}}
+	io.allow["d0:53"] = true
+	io.allow["d1:53"] = verifBool("allow1")
+	io.allow["d2:53"] = verifBool("allow2")
+	m := newUDPSessionManager(io, &zzUDPLog{}, time.Minute)
+	m.feed(zzDgram(7, "d0:53", 0))
+	c := io.conns[0]
+	verifAssert(len(c.writes) == 1, "the session is established towards an allowed destination")
+	a := zzDests[verifChoice("fragment0Dest", len(zzDests))]
+	b := zzDests[verifChoice("fragment1Dest", len(zzDests))]
+	f0 := zzDgram(7, a, 1)
+	f0.PacketID, f0.FragID, f0.FragCount = 9, 0, 2
+	f1 := zzDgram(7, b, 2)
+	f1.PacketID, f1.FragID, f1.FragCount = 9, 1, 2
+	if verifChoice("order", 2) == 0 {
+		m.feed(f0)
+		m.feed(f1)
+	} else {
+		m.feed(f1)
+		m.feed(f0)
+	}
+	if len(c.writes) > 1 {
+		verifAssert(len(c.writes) == 2, "the reassembled datagram is sent once")
+		verifAssert(io.allow[c.writes[1]], "the reassembled datagram goes only to a destination the policy allows")
+		verifAssert(c.writes[1] == a || c.writes[1] == b, "and to a destination one of its fragments names")
+		verifCover("forwarded")
+	} else {
+		verifAssert(!io.allow[a] || !io.allow[b], "it is dropped only if a named destination is rejected")
+		verifCover("dropped")
+	}
+}
